@@ -32,3 +32,65 @@ where
         std::process::abort();
     }
 }
+
+// ---------------------------------------------------------------------------------------------
+// Raw-bytes target (C04 / C03): the fuzzer's bytes ARE the 32 bytes the caller's RNG hands out.
+
+use crate::engine::{guarded, Fail};
+use crate::libapi::{libs, TestRng};
+use crate::refmodel as rf;
+
+/// `Err((property, fail))` on a violation.
+pub fn raw_keygen_sign(data: &[u8]) -> Result<(), (&'static str, Fail)> {
+    if data.len() < 34 {
+        return Ok(());
+    }
+    let libr = libs()[(data[0] % 3) as usize];
+    let p = libr.p();
+    let sel = data[1];
+    let xi: [u8; 32] = core::array::from_fn(|i| data[2 + i]);
+    if sel & 1 == 0 {
+        let (rpk, rsk) = rf::keygen_internal(&p, &xi);
+        for modfn in [false, true] {
+            let mut rng = TestRng::replay(&xi);
+            let r = guarded(|| if modfn { libr.keygen_with_rng_modfn(&mut rng) } else { libr.keygen_with_rng(&mut rng) }.map(|(pk, sk)| (pk.to_bytes(), sk.to_bytes())));
+            match r {
+                Ok(Ok((pk, sk))) => {
+                    if pk != rpk || sk != rsk {
+                        return Err(("C04", Fail::new("keygen_rng_mismatch", format!("set {}: try_keygen_with_rng on the draw {} differs from KeyGen_internal", p.id, hex::encode(xi)))));
+                    }
+                }
+                Ok(Err(e)) => return Err(("C04", Fail::new("keygen_rng_err", format!("set {}: try_keygen_with_rng failed ({e}) although the RNG delivered the 32 bytes {}", p.id, hex::encode(xi))))),
+                Err(pi) => return Err(("C04", Fail::panic("try_keygen_with_rng", &pi))),
+            }
+        }
+    } else {
+        let rest = &data[34..];
+        let mode = rf::MODES[((sel >> 1) % 4) as usize];
+        let clen = (rest.first().copied().unwrap_or(0) as usize).min(rest.len().saturating_sub(1)).min(255);
+        let (ctx, msg) = if rest.is_empty() { (&rest[..0], &rest[..0]) } else { (&rest[1..1 + clen], &rest[1 + clen..]) };
+        let key_seed = [sel >> 3; 32];
+        let (_, rsk) = rf::keygen_internal(&p, &key_seed);
+        let Ok((rsig, _)) = rf::sign(&p, &rsk, msg, ctx, mode, &xi, 400) else { return Ok(()) };
+        let (_, sk) = libr.keygen_from_seed(&key_seed);
+        let mut rng = TestRng::replay(&xi);
+        match guarded(|| sk.sign(&mut rng, msg, ctx, mode)) {
+            Ok(Ok(s)) => {
+                if s != rsig {
+                    return Err(("C03", Fail::new("sign_mismatch", format!("set {} {}: signature differs from FIPS 204 Sign for rnd {}", p.id, mode.tag(), hex::encode(xi)))));
+                }
+            }
+            Ok(Err(e)) => return Err(("C03", Fail::new("sign_err", format!("set {}: signing failed ({e}) although the RNG delivered 32 bytes", p.id)))),
+            Err(pi) => return Err(("C03", Fail::panic("sign", &pi))),
+        }
+    }
+    Ok(())
+}
+
+pub fn replay_raw(prop: &str, case: &serde_json::Value) -> Option<crate::engine::CheckResult> {
+    let data = hex::decode(case.get("raw_hex")?.as_str()?).ok()?;
+    Some(match raw_keygen_sign(&data) {
+        Err((p, f)) if p == prop => Err(f),
+        _ => Ok(()),
+    })
+}
